@@ -645,12 +645,155 @@ func headersFamily(maxLen int) seq.Family {
 	}}
 }
 
+// ---- two requests in flight on one gateway ----
+
+// multi dispatches on the rpc name so that one gateway instance serves different behaviours.
+type multi map[string]behaviour
+
+func (m multi) HandleRPC(stream drpc.Stream, rpc string) error {
+	return handler{b: m[rpc], obs: &observed{}}.HandleRPC(stream, rpc)
+}
+
+// gatedRecorder is an http.ResponseWriter whose k-th Write parks until released, and which reads
+// the bytes it is given only then (a slow client connection).
+type gatedRecorder struct {
+	hdr     http.Header
+	code    int
+	body    []byte
+	writes  int
+	parkAt  int
+	parked  chan struct{}
+	release chan struct{}
+}
+
+func (g *gatedRecorder) Header() http.Header { return g.hdr }
+func (g *gatedRecorder) WriteHeader(c int) {
+	if g.code == 0 {
+		g.code = c
+	}
+}
+func (g *gatedRecorder) Write(p []byte) (int, error) {
+	if g.code == 0 {
+		g.code = 200
+	}
+	k := g.writes
+	g.writes++
+	if k == g.parkAt {
+		close(g.parked)
+		<-g.release
+	}
+	g.body = append(g.body, p...)
+	return len(p), nil
+}
+func (g *gatedRecorder) Flush() {}
+
+// PairCase: request A is parked inside its K-th response write while request B is served completely.
+type PairCase struct {
+	A, B Case
+	K    int
+}
+
+func pairRequest(c Case, path string) *http.Request {
+	req := httptest.NewRequest("POST", path, bytes.NewReader(requestBody(c, payloadFor(c))))
+	if c.CT != "" {
+		req.Header.Set("Content-Type", c.CT)
+	}
+	return req
+}
+
+func render(code int, hdr http.Header, body []byte) string {
+	return fmt.Sprintf("%d %q %q %x", code, hdr.Get("Content-Type"), hdr.Get("Grpc-Status")+hdr.Get("Grpc-Message"), body)
+}
+
+// evalPair returns "" when both responses equal what each request yields when served alone.
+func evalPair(pc PairCase) (msg string, writesA int) {
+	gwOf := func() http.Handler {
+		return drpchttp.New(multi{"/svc/A": pc.A.B, "/svc/B": pc.B.B})
+	}
+	solo := func(c Case, path string) (string, int) {
+		g := &gatedRecorder{hdr: http.Header{}, parkAt: -1}
+		gwOf().ServeHTTP(g, pairRequest(c, path))
+		return render(g.code, g.hdr, g.body), g.writes
+	}
+	wantA, nA := solo(pc.A, "/svc/A")
+	wantB, _ := solo(pc.B, "/svc/B")
+	if pc.K >= nA {
+		return "", nA
+	}
+	gw := gwOf()
+	ga := &gatedRecorder{hdr: http.Header{}, parkAt: pc.K, parked: make(chan struct{}), release: make(chan struct{})}
+	doneA := make(chan struct{})
+	go func() { defer close(doneA); gw.ServeHTTP(ga, pairRequest(pc.A, "/svc/A")) }()
+	select {
+	case <-ga.parked:
+	case <-doneA:
+		return fmt.Sprintf("request A made %d response writes when served alone but finished before write %d this time", nA, pc.K), nA
+	}
+	gb := &gatedRecorder{hdr: http.Header{}, parkAt: -1}
+	gw.ServeHTTP(gb, pairRequest(pc.B, "/svc/B"))
+	close(ga.release)
+	<-doneA
+	if got := render(gb.code, gb.hdr, gb.body); got != wantB {
+		return fmt.Sprintf("request B, served while A was parked in its response write %d, got a different response than when served alone:\n  alone:   %.300s\n  together: %.300s", pc.K, wantB, got), nA
+	}
+	if got := render(ga.code, ga.hdr, ga.body); got != wantA {
+		return fmt.Sprintf("request A, parked in its response write %d while B was served, got a different response than when served alone:\n  alone:   %.300s\n  together: %.300s", pc.K, wantA, got), nA
+	}
+	return "", nA
+}
+
+func pairsFamily() seq.Family {
+	return seq.Family{
+		Name: "two-requests-in-flight",
+		Run: func(ctx *seq.Ctx) {
+			var singles []Case
+			e := ErrSpec{Msg: "quota exceeded", Num: 7}
+			for _, ct := range []string{"application/grpc-web+proto", "application/grpc-web-text+proto", "application/proto", "application/json"} {
+				for _, b := range []behaviour{{Sends: []int{3}}, {Sends: []int{5, 2}}, {Sends: []int{4}, Err: &e}, {Err: &e}} {
+					singles = append(singles, Case{CT: ct, BodyLen: 6, B: b})
+				}
+			}
+			var cases []PairCase
+			for _, a := range singles {
+				for _, b := range singles {
+					cases = append(cases, PairCase{A: a, B: b})
+				}
+			}
+			seq.Parallel(len(cases), func(i int) {
+				for k := 0; ; k++ {
+					pc := cases[i]
+					pc.K = k
+					msg, n := evalPair(pc)
+					if k >= n {
+						break
+					}
+					ctx.Count(1, 3, 2)
+					if msg != "" {
+						ctx.Fail(msg, pc)
+						return
+					}
+				}
+			})
+			ctx.Class("independent")
+			ctx.Sample(PairCase{A: singles[0], B: singles[2], K: 0})
+		},
+		Replay: func(in json.RawMessage) string {
+			var pc PairCase
+			if err := json.Unmarshal(in, &pc); err != nil {
+				return "bad replay input: " + err.Error()
+			}
+			msg, _ := evalPair(pc)
+			return msg
+		},
+	}
+}
+
 func families(tier string) []seq.Family {
 	n := 5
 	if tier == "thorough" {
 		n = 6
 	}
-	return []seq.Family{outcomesFamily(), headersFamily(n), sizesFamily(tier)}
+	return []seq.Family{outcomesFamily(), headersFamily(n), sizesFamily(tier), pairsFamily()}
 }
 
 var _ = http.StatusOK
